@@ -175,11 +175,14 @@ def normalize_power(case, ctx):
 @st.composite
 def long_case(draw, tier="quick"):
     m = draw(st.sampled_from([1023, 1024, 1101, 1500, 2047, 2048, 2049, 2600]))
-    os_ = draw(st.sampled_from([1, 1, 2, 3]))
-    k = draw(st.sampled_from([1, 2, 3, 4]))
-    Nr = (int(np.ceil(m * k / os_)) + draw(st.integers(0, 3))) * os_          # period on the long axis, multiple of os
+    os_ = draw(st.sampled_from([1, 1, 1, 2, 3, 5]))
     floor_ = int(np.ceil(m / os_)) * os_
-    while Nr * m > 9_000_000 and Nr > floor_:
+    if draw(st.integers(0, 3)):
+        # kernel element count Nr*m aimed between 2^22 and 9e6; Nr a multiple of os of either parity when os is odd
+        Nr = max(floor_, (draw(st.integers(2**22 + 1, 9_000_000)) // m // os_ + draw(st.integers(0, 2))) * os_)
+    else:
+        Nr = (int(np.ceil(m * draw(st.sampled_from([1, 2])) / os_)) + draw(st.integers(0, 3))) * os_
+    while Nr * m > 9_100_000 and Nr > floor_:
         Nr = max(floor_, (Nr // 2 // os_ + 1) * os_)
     n = draw(st.integers(2, 3))
     Nc = (int(np.ceil(n / os_)) + draw(st.integers(0, 2))) * os_
@@ -189,7 +192,7 @@ def long_case(draw, tier="quick"):
 
 @hyp("C05", "long", lambda tier: long_case(tier),
      "pupils of 1023..2600 x 2..3 samples imaged over exactly one period (up to 9e6 kernel elements): the image "
-     "carries the input power", examples=(10, 40), budget_s=(150, 700))
+     "carries the input power", examples=(18, 60), budget_s=(150, 700))
 def long(case, ctx):
     m, n, os_ = case["m"], case["n"], case["oversample"]
     N = list(case["N"])
